@@ -9,3 +9,4 @@ import RSVerif.Properties.C06
 #print axioms RS.source_errors_truthful
 #print axioms RS.source_valid_calls_succeed
 #print axioms RS.source_simulates_model
+#print axioms RS.source_simulates_model_steps
